@@ -109,6 +109,7 @@ func checkC03(c *Ctx) {
 	checkBinderLocations(c, "C03.R2.locations", ev)
 	checkBodyAssigned(c, ev)
 	checkBinderLoops(c, ev)
+	checkInnerArraysKept(c, "C03.R2.inner-arrays-kept", ev)
 	checkDefaultInitAgreement(c, ev)
 
 	// ---- R3 Go side
